@@ -797,7 +797,11 @@ impl Bindgen for FunctionBindgen<'_, '_> {
                     "let {map} = {operand0};\n",
                     operand0 = operands[0]
                 ));
-                self.push_str(&format!("let {len} = {map}.wit_map_len();\n"));
+                // The trait is not in scope everywhere this is emitted (world-level
+                // functions, future/stream payload vtables).
+                self.push_str(&format!(
+                    "let {len} = {{ use {rt}::WitMap as _; {map}.wit_map_len() }};\n"
+                ));
                 let entry = self.map_entry_layout(key, value);
                 self.push_str(&format!(
                     "let {layout} = {alloc}::Layout::from_size_align({len} * {}, {}).unwrap();\n",
